@@ -456,6 +456,9 @@ class PeriodicGrid(Grid):
             # Store points with the opposite displacement!!
             local_points.append(self._points[indices] - delta)
 
+        if len(local_indices) == 0:
+            # no periodic image lies inside the sphere: return an empty local grid
+            return LocalGrid(self._points[:0], self._weights[:0], center, np.zeros(0, dtype=int))
         return LocalGrid(
             np.concatenate(local_points),
             np.concatenate(local_weights),
